@@ -458,6 +458,9 @@ def run_property(prop, tier='quick', seed=0, replay=None):
             return 1
         return 0
 
+    for old in glob.glob(os.path.join(REPLAYS, '%s_%d_*.json' % (pid, seed))):
+        os.remove(old)
+
     # ---- (1) proofs
     ok_build, build_log = build()
     words = forbidden_words()
